@@ -337,9 +337,25 @@ def _run_case(case, acc, clk):
             cmp(getter, got, want, feature)
             if len(viols) != n0:
                 plain_bad.add(getter)
+        # the parent exits and the process is handed to another one: the same object, asked again, says what the kernel says now
+        if "ppid" not in plain_bad:
+            new_pp = 1 if case["ppid"] != 1 else 2
+            p.ppid = new_pp
+            try:
+                got = pr.ppid()
+                acc.count("ppid_asked_again_after_reparenting")
+                if got != new_pp:
+                    viols.append(("ppid_wrong:after_reparenting", f"ppid() -> {got!r} after the kernel started to publish {new_pp} (was {case['ppid']})"))
+            except Exception as e:  # noqa: BLE001
+                viols.append((f"ppid_exception:{type(e).__name__}:after_reparenting", repr(e)))
+            p.ppid = case["ppid"]
         # the same record read through the other two call paths: inside a oneshot() block (shared cached parse, getters
         # in the opposite order so a different one fills the cache) and through as_dict()
         with pr.oneshot():
+            try:
+                pr.cpu_percent()        # reaches the platform's cpu_times() on the cached record before anybody else does
+            except Exception:  # noqa: BLE001
+                pass
             for getter, fn, want, feature in reversed(checks):
                 if getter in plain_bad:
                     continue
